@@ -8,14 +8,20 @@ PROP = dict(
     n=dict(quick=700, thorough=6000),
     exhaustive=dict(quick=False, thorough=False),
     rule="sessions of 8-24 random drawing/geometry/text operations on canvases 0..64x0..64 (thorough: every "
-         "size once, then random), coordinates in a window 3 canvas sizes beyond every edge; a record is "
-         "non-trivial when the operation changed the implementation's buffer; distinct = distinct record text",
-    trusted_base=["Go int modelled as unbounded Int (no 64-bit overflow in the explored/proved domain)"],
-    assumptions=["coordinates and sizes small enough that Go int arithmetic does not overflow"],
+         "size once, then random), coordinates in a window 3 canvas sizes beyond every edge and, now and then, at the edge of "
+         "int32 (+-2^31-1; extents huge only on the negative side: a huge positive extent is a loop of that many iterations, "
+         "outside the no-hang domain of C16.work_bound); the buffer is replaced now and then through CreateFromBytes with a "
+         "slice shorter than, equal to or longer than ceil(w/8)*h (bytes beyond the canvas rows must survive every later "
+         "operation: clause `tail`); a record is non-trivial when the operation changed the implementation's buffer; "
+         "distinct = distinct record text",
+    trusted_base=["Go int = int64: proved exact for geometry and arguments below 2^31 (C16.int64_safe); beyond that the "
+                  "model's unbounded Int is not claimed faithful"],
+    assumptions=["canvas sizes, bounding-box fields and arguments below 2^31 in magnitude, strings of at most 2^22 characters "
+                 "(domain of int64_safe); loop extents small enough to terminate in reasonable time (work_bound)"],
 )
 
 CLAIM = dict(
-    text="Lean theorems C16.step_holds / all_steps_hold: for every canvas size, bounding box, inversion flag and every sequence of operations with arbitrary integer arguments, each step keeps the buffer size, leaves every stored bit (padding included) outside clip ∩ footprint unchanged, and pixels/lines/filled rectangles set exactly the clipped footprint. The statement is the executable predicate Spec.Mono.check, which the run also evaluates on the real library's before/after buffers; model = code is checked by running both on generated operation sessions.",
-    note=TB + "Go int taken as unbounded (no 64-bit overflow).",
+    text="Lean theorems C16.step_holds / step_tail_holds / all_steps_hold / all_steps_hold_cmds: for every canvas size, bounding box, inversion flag and every sequence of drawing operations, NewImage and CreateFromBytes calls (slices shorter, equal or longer than the canvas needs) with arbitrary integer arguments, each step keeps the buffer size, leaves every stored bit (padding included) outside clip ∩ footprint and every byte beyond the canvas rows unchanged, and pixels/lines/filled rectangles set exactly the clipped footprint; the footprint of corner helpers and rounded rectangles is quadrant-exact (circ_quadrant, fcirc_side), DrawBitmap's effect is characterised exactly (drawBitmap_exact). The statement is the executable predicate Spec.Mono.checkBytes, which the run also evaluates on the real library's before/after buffers; model = code is checked by running both on generated operation sessions. C16.no_panic / no_panic_seq / strWidth_no_panic: in the panic-carrying form of the model (every slice access checked, negative shift counts panic) no operation on any canvas with any arguments fails. C16.work_bound: at most (L+1)*(82+72*E*(E+1)) loop iterations for extents <= E and L characters, whatever the coordinates. C16.int64_safe: with geometry and arguments below 2^31 every Go int value stays inside (-2^62, 2^62), so the Int model is exact on that domain.",
+    note=TB + "Go int: exact below 2^31 (int64_safe); nothing claimed beyond. No-hang is a bound on loop iterations in terms of the extents (work_bound), not a wall-clock statement.",
     technique="Lean 4 proof (frame/paint calculus over DrawPixel, induction over loops and operation lists) + model/implementation correspondence",
 )
